@@ -5,6 +5,7 @@ package main
 // code) a walk takes every iterator call from every cursor position, both sentinels included.
 
 import (
+	"cmp"
 	"math/rand"
 
 	"github.com/emirpasic/gods/v2/lists/arraylist"
@@ -161,6 +162,10 @@ func makeCursor(x Inst) (*cursor, [][]int) {
 	case *btree.Tree[int, V]:
 		return wrapKey(t.Iterator()), seqKV(t.Keys(), t.Get)
 	}
+	// maps and trees made by New() (built-in comparator), float keys incl. NaN behind codes (fam_dflt.go)
+	if c, sq := dfltCursor(x.Target()); c != nil {
+		return c, sq
+	}
 	if h, ok := x.(*heapInst); ok {
 		pv := func(vs []PE) [][]int {
 			out := [][]int{}
@@ -176,6 +181,42 @@ func makeCursor(x Inst) (*cursor, [][]int) {
 	}
 	die("makeCursor: unsupported %T", x.Target())
 	return nil, nil
+}
+
+func wrapKeyCoded[K cmp.Ordered](it keyFull[K, V], c *codec[K]) *cursor {
+	return &cursor{keyed: true, reverse: true, next: it.Next, prev: it.Prev, first: it.First, last: it.Last,
+		begin: it.Begin, end: it.End,
+		nextTo: func(p pred) bool { return it.NextTo(func(k K, v V) bool { return p.holds(c.enc(k), int(v)) }) },
+		prevTo: func(p pred) bool { return it.PrevTo(func(k K, v V) bool { return p.holds(c.enc(k), int(v)) }) },
+		read:   func() (int, int) { return c.enc(it.Key()), int(it.Value()) }}
+}
+
+func dfltCursor(target any) (*cursor, [][]int) {
+	var f ordMap[float64]
+	switch t := target.(type) {
+	case ordMap[float64]:
+		f = t
+	case ordBidi[float64]:
+		f = t.ordMap
+	default:
+		return nil, nil
+	}
+	var it keyFull[float64, V]
+	switch m := f.m.(type) {
+	case *treemap.Map[float64, V]:
+		it = m.Iterator()
+	case *treebidimap.Map[float64, V]:
+		it = m.Iterator()
+	case *rbt.Tree[float64, V]:
+		it = m.Iterator()
+	case *avltree.Tree[float64, V]:
+		it = m.Iterator()
+	case *btree.Tree[float64, V]:
+		it = m.Iterator()
+	default:
+		return nil, nil
+	}
+	return wrapKeyCoded[float64](it, f.c), seqKV(f.Keys(), f.Get)
 }
 
 func seqKV(keys []int, get func(int) (V, bool)) [][]int {
@@ -697,18 +738,22 @@ func jobCursor(j *jobCtx) {
 		case "linkedhashset":
 			us = append(us, &setUniverse{kind: k, cmp: "", n: pick(3, 4), argLen: 1})
 		case "treemap":
-			us = append(us, &mapUniverse{kind: k, cmp: "nat", nk: pick(4, 6), ctr: &ctr}, &mapUniverse{kind: k, cmp: "rev", nk: pick(3, 4), ctr: &ctr})
+			us = append(us, &mapUniverse{kind: k, cmp: "nat", nk: pick(4, 6), ctr: &ctr}, &mapUniverse{kind: k, cmp: "rev", nk: pick(3, 4), ctr: &ctr},
+				&mapUniverse{kind: k, cmp: "dflt", nk: 5, ctr: &ctr})
 		case "linkedhashmap":
 			us = append(us, &mapUniverse{kind: k, nk: pick(3, 4), ctr: &ctr})
 		case "treebidimap":
-			us = append(us, &mapUniverse{kind: k, cmp: "nat", vcmp: "nat", nk: 3, nv: 3, ctr: &ctr})
+			us = append(us, &mapUniverse{kind: k, cmp: "nat", vcmp: "nat", nk: 3, nv: 3, ctr: &ctr}, &mapUniverse{kind: k, cmp: "dflt", vcmp: "nat", nk: 4, nv: 3, ctr: &ctr})
 		case "redblacktree", "avltree":
-			us = append(us, &mapUniverse{kind: k, cmp: "nat", nk: pick(5, 7), ctr: &ctr}, &mapUniverse{kind: k, cmp: "rev", nk: pick(3, 4), ctr: &ctr})
+			us = append(us, &mapUniverse{kind: k, cmp: "nat", nk: pick(5, 7), ctr: &ctr}, &mapUniverse{kind: k, cmp: "rev", nk: pick(3, 4), ctr: &ctr},
+				&mapUniverse{kind: k, cmp: "dflt", nk: 5, ctr: &ctr}, &mapUniverse{kind: k, cmp: "dfltTot", nk: 5, ctr: &ctr})
 		case "btree":
 			us = append(us, &mapUniverse{kind: k, cmp: "nat", m: 3, nk: pick(6, 9), ctr: &ctr},
 				&mapUniverse{kind: k, cmp: "nat", m: 4, nk: pick(5, 8), ctr: &ctr},
 				&mapUniverse{kind: k, cmp: "nat", m: 5, nk: pick(6, 9), ctr: &ctr},
-				&mapUniverse{kind: k, cmp: "rev", m: 3, nk: pick(4, 5), ctr: &ctr})
+				&mapUniverse{kind: k, cmp: "rev", m: 3, nk: pick(4, 5), ctr: &ctr},
+				&mapUniverse{kind: k, cmp: "dflt", m: 3, nk: 5, ctr: &ctr}, &mapUniverse{kind: k, cmp: "dflt", m: 4, nk: 5, ctr: &ctr},
+				&mapUniverse{kind: k, cmp: "dfltTot", m: 3, nk: 5, ctr: &ctr})
 		}
 	}
 	for _, u := range us {
